@@ -97,8 +97,11 @@ Record fnsig := {
   fs_ret : ty;
   fs_file : string;
   fs_cfg : list string;
-  fs_calls : list string;            (* simple names of everything called in the body *)
-  fs_field_calls : list (string * string)   (* (field, method) for calls of the form [x.field.method(..)] *)
+  fs_calls : list string;            (* simple names of everything called in the body, and -- transitively -- in the
+                                        bodies of the crate's private helper functions it calls (inlined by the
+                                        translator when the call resolves unambiguously) *)
+  fs_field_calls : list (string * string)   (* (field, method) for calls of the form [x.field.method(..)]; private helpers
+                                               inlined as for [fs_calls] *)
 }.
 
 (** Patterns, only as far as the [field!] macro needs them. [PBind by_ref mutable name]. *)
@@ -142,4 +145,12 @@ Record cg_fn := {
 Inductive zexpr := ZSizeOf | ZAlignOf | ZMaxAlign | ZLit (n : N) | ZUnknownE (s : string).
 Inductive zcond :=
 | ZEq (a b : zexpr) | ZLe (a b : zexpr) | ZLt (a b : zexpr)
-| ZAnd (a b : zcond) | ZOr (a b : zcond) | ZTrue | ZUnknownC (s : string).
+| ZAnd (a b : zcond) | ZOr (a b : zcond) | ZNot (a : zcond) | ZTrue | ZUnknownC (s : string).
+
+(** The body of [alloc_zst] as a decision tree: which of [Some(..)] / [None] it returns under which
+    (pure) conditions.  The translator only turns control flow into this tree -- an early
+    [if c { return X; } rest] is [ZIf c X rest], [let]-bound pure sub-expressions are substituted --;
+    what the conditions MEAN is decided in [ModelSigs].  Anything else (a statement with an effect,
+    a leaf that is neither [Some(..)] nor [None], a loop, a [match]) is a [ZUnknownB] leaf. *)
+Inductive zbody :=
+| ZRetSome | ZRetNone | ZIf (c : zcond) (t e : zbody) | ZUnknownB (s : string).
